@@ -122,4 +122,14 @@ def cases(tier, seed):  # noqa: F811
             if k % (3 if tier == "thorough" else 6) == 0:
                 for lay in ("F", "view"):
                     extra.append(dict(c, params=dict(prm, layout=lay), input_class=c["input_class"] + "/layout-" + lay))
+    # `sys` / `dim` handed over as lists of numpy integers
+    k = 0
+    for c in base:
+        prm = c.get("params", {})
+        if c["clause"] == "ptrace.index" and prm.get("entries", "arange") != "sym" and prm.get("sysform", "list") == "list" and prm.get("dimform", "list") == "list" and not prm.get("sys_omitted"):
+            k += 1
+            if k % 9 == 0:
+                # (tuples / ndarrays for `sys` are rejected with a documented ValueError and a tuple `dim` is outside the documented types: not judged)
+                for sf, df in (("npint", "npint"), ("npint", "list"), ("list", "npint")):
+                    extra.append(dict(c, params=dict(prm, sysform=sf, dimform=df), input_class=c["input_class"] + "/sys-%s-dim-%s" % (sf, df)))
     return base + extra
